@@ -32,7 +32,11 @@ namespace vf {
 struct Rng {
     uint64_t s;
     explicit Rng(uint64_t seed = 1) : s(seed * 0x9E3779B97F4A7C15ULL + 0x1234567ULL) {
-        next();
+        // scramble the seed through the output function first: with s = seed * increment the streams of
+        // consecutive seeds would be copies of each other shifted by one draw
+        uint64_t a = next();
+        uint64_t b = next();
+        s = a ^ (b << 1) ^ (seed * 0xD6E8FEB86659FD93ULL);
         next();
     }
     uint64_t next() { // splitmix64
